@@ -53,3 +53,36 @@ Print Assumptions C09_map_from_sources.
 Theorem C09_map_ignored : forall m params query b kvs, bind_map MIgnored m params query b = MBound kvs -> kvs = [].
 Proof. exact bind_map_ignored. Qed.
 Print Assumptions C09_map_ignored.
+
+(* ---- tie to the source by proof: DefaultBinder.Bind and DefaultBinder.BindBody, translated statement by statement from
+   bind.go on every run (Gen/Src_bind.v, language Base/GoLite.v).  Bind consults the path parameters first, the query string
+   only for GET / DELETE / HEAD (methods 1, 2, 3), the body last, and nothing after the first source that fails (e1, e2 = the
+   errors of the path / query binder, 0 = nil; 100 = whatever BindBody returns). *)
+From Coq Require Import String ZArith.
+From Echo Require Import Base.GoLite Gen.Src_bind Bind.BindSrc.
+
+Theorem C09_source_bind_order : forall m e1 e2,
+  let st := {| locals := [("i"%string, 0%Z); ("c"%string, 0%Z)]; fields := [("c.Request().Method"%string, m)]; events := [];
+               inputs := [[e1]; [e2]] |} in
+  let '(st', ret) := GoLite.run bsym src_binder_bind_results src_binder_bind st in
+  if negb (e1 =? 0)%Z then names st' = ["b.BindPathParams"%string] /\ ret = [e1]
+  else if query_method m then
+    (if negb (e2 =? 0)%Z then names st' = ["b.BindPathParams"; "b.BindQueryParams"]%string /\ ret = [e2]
+     else names st' = ["b.BindPathParams"; "b.BindQueryParams"; "b.BindBody"]%string /\ ret = [100%Z])
+  else names st' = ["b.BindPathParams"; "b.BindBody"]%string /\ ret = [100%Z].
+Proof. exact src_bind_order. Qed.
+Print Assumptions C09_source_bind_order.
+
+(* BindBody: an empty body (Content-Length 0) is not looked at; otherwise the media type alone selects the decoder - JSON (11)
+   the configured serializer, the two XML types (12, 13) encoding/xml, urlencoded (14) and multipart (15) forms bindData with
+   the tag "form" (77) - and any other type is refused with 415 before anything is decoded *)
+Theorem C09_source_body_dispatch : forall cl mt,
+  let st := {| locals := [("i"%string, 0%Z); ("c"%string, 0%Z); ("err"%string, 0%Z)]; fields := [("req.ContentLength"%string, cl)]; events := [];
+               inputs := [[9; 0; 0]; [mt]; [0; 0]; [0]]%Z |} in
+  let '(st', ret) := GoLite.run bsym src_binder_bindbody_results src_binder_bindbody st in
+  if (cl =? 0)%Z then events st' = [] /\ ret = [0%Z]
+  else names st' = (["strings.Cut"; "strings.TrimSpace"] ++ decoder_calls mt)%list%string /\
+       ret = [if ((mt =? 11) || (mt =? 12) || (mt =? 13) || (mt =? 14) || (mt =? 15))%Z then 0%Z else 415%Z] /\
+       (forall args, In ("b.bindData"%string, args) (events st') -> nth 2 args 0%Z = 77%Z).
+Proof. exact src_bindbody_dispatch. Qed.
+Print Assumptions C09_source_body_dispatch.
